@@ -408,36 +408,22 @@ func cacheRule(r *Run, rule string) {
 // statement is `if err != nil { return ... }` where err is the error result of
 // the latest constructor call.
 func storeAfterErrReturn(w *World, info *types.Info, f *FuncInfo, st ast.Stmt) bool {
-	parent := w.Parent(st)
-	blk, ok := parent.(*ast.BlockStmt)
-	if !ok {
+	// the error variable of the latest two-result call that precedes the store in this function
+	var errObj types.Object
+	inspectBody(f.Decl.Body, false, func(n ast.Node) bool {
+		if as, ok := n.(*ast.AssignStmt); ok && as.Pos() < st.Pos() && len(as.Rhs) == 1 && len(as.Lhs) == 2 {
+			if _, isCall := as.Rhs[0].(*ast.CallExpr); isCall {
+				if o := objOf(info, as.Lhs[1]); o != nil && isErrorType(o.Type()) {
+					errObj = o
+				}
+			}
+		}
+		return true
+	})
+	if errObj == nil {
 		return false
 	}
-	var errObj types.Object
-	okSeen := false
-	for _, s := range blk.List {
-		if s == st {
-			return okSeen
-		}
-		switch x := s.(type) {
-		case *ast.AssignStmt:
-			if len(x.Rhs) == 1 && len(x.Lhs) == 2 {
-				if _, isCall := x.Rhs[0].(*ast.CallExpr); isCall {
-					errObj = objOf(info, x.Lhs[1])
-					okSeen = false
-				}
-			}
-		case *ast.IfStmt:
-			if be, ok := unparen(x.Cond).(*ast.BinaryExpr); ok && be.Op == token.NEQ && isNilIdent(info, be.Y) && objOf(info, be.X) == errObj && errObj != nil {
-				if n := len(x.Body.List); n > 0 {
-					if _, isRet := x.Body.List[n-1].(*ast.ReturnStmt); isRet {
-						okSeen = true
-					}
-				}
-			}
-		}
-	}
-	return false
+	return w.dominatedBy(info, st, []types.Object{errObj}, nilFact(info, func(e ast.Expr) bool { return objOf(info, e) == errObj }, true))
 }
 
 // ---- R5: globals -----------------------------------------------------------------
@@ -590,27 +576,20 @@ func programFieldRule(r *Run, rule string) {
 				// must be in a method of Template, after `if t.program != nil { return }`
 				// and after `if err != nil { return }`
 				okNil, okErr := false, false
-				if blk, isBlk := w.Parent(as).(*ast.BlockStmt); isBlk && isMethodOf(f, tt) {
-					for _, s := range blk.List {
-						if s == ast.Stmt(as) {
-							break
+				if isMethodOf(f, tt) {
+					okNil = w.dominatedBy(info, as, nil, nilFact(info, func(e ast.Expr) bool { _, fl := fieldOf(info, e); return fl == progField }, true))
+					var errObjs []types.Object
+					inspectBody(f.Decl.Body, false, func(n ast.Node) bool {
+						if a2, ok := n.(*ast.AssignStmt); ok && a2.Pos() < as.Pos() && len(a2.Rhs) == 1 && len(a2.Lhs) == 2 {
+							if o := objOf(info, a2.Lhs[1]); o != nil && isErrorType(o.Type()) {
+								errObjs = append(errObjs, o)
+							}
 						}
-						ifs, isIf := s.(*ast.IfStmt)
-						if !isIf || len(ifs.Body.List) == 0 {
-							continue
-						}
-						if _, isRet := ifs.Body.List[len(ifs.Body.List)-1].(*ast.ReturnStmt); !isRet {
-							continue
-						}
-						be, isBe := unparen(ifs.Cond).(*ast.BinaryExpr)
-						if !isBe || be.Op != token.NEQ || !isNilIdent(info, be.Y) {
-							continue
-						}
-						if _, fl := fieldOf(info, be.X); fl == progField {
-							okNil = true
-						} else if tv, ok := info.Types[be.X]; ok && types.Identical(tv.Type, types.Universe.Lookup("error").Type()) {
-							okErr = true
-						}
+						return true
+					})
+					if len(errObjs) > 0 {
+						eo := errObjs[len(errObjs)-1]
+						okErr = w.dominatedBy(info, as, []types.Object{eo}, nilFact(info, func(e ast.Expr) bool { return objOf(info, e) == eo }, true))
 					}
 				}
 				if okNil && okErr {
